@@ -40,7 +40,9 @@ def par(p: Poly) -> str:
 def base_env():
     verts = SV("cyc", [Poly.atom(cyc.sym(c, 0)) for c in "xyz"])
     normal = SV("vec", [Poly.atom(f"n.{c}") for c in "xyz"])
+    centre = SV("vec", [Poly.atom(f"c.{c}") for c in "xyz"])
     attr = {
+        "self.centroid": centre, "self.center": centre,
         "self.vertices": verts, "self._vertices": verts,
         "self.normal": normal, "self._normal": normal,
         "self.area": SV("scal", [Poly.atom("AREA")]),
@@ -131,8 +133,10 @@ class PolyEval(Evaluator):
         return out
 
 
-def evaluate(fn, extra_env=None):
-    ev = PolyEval(base_env(), extra_env)
+def evaluate(fn, extra_env=None, extra_attr=None):
+    attr = base_env()
+    attr.update(extra_attr or {})
+    ev = PolyEval(attr, extra_env)
     ev.result_names = {n.value.id for n in ast.walk(fn.node) if isinstance(n, ast.Return) and isinstance(n.value, ast.Name)}
     body = [s for s in fn.node.body if not (isinstance(s, ast.Expr) and isinstance(s.value, ast.Constant))]
     ret = ev.run(body)
